@@ -1,14 +1,133 @@
 # merge_shard_infos under contract (development: props=[] keeps it out of the checks)
 MM = "sedpack/io/merge_shard_infos.py"
-macro("UP", ["u"], "u.shard_list_info_file.file_path")
+macro("MD", ["updates", "common"], "PPREFIX(UP(updates[0]), common)")
+macro("MP0", ["updates", "common"], "PJOIN(PPREFIX(UP(updates[0]), common), 'shards_list.json')")
+# rel lies strictly below the directory D (which has k components)
+macro("UNDER", ["D", "k", "rel"], "NPARTS(rel) > k and PPREFIX(rel, k) == D")
+# an info that belongs strictly below the directory D at depth `common`
+macro("DU_OK", ["x", "D", "common"], "VALID_ShardListInfo(x) and NPARTS(UP(x)) > common + 1 and PPREFIX(UP(x), common) == D")
+macro("PLAIN_NAME", ["g"], "NPARTS(g) == 1 and not ISABS(g) and not HASDD(g)")
+_G, _M, _RSL = "recursively_update", "_dc1", "root_shard_list"
+_D, _P0 = "MD(updates, common)", "MP0(updates, common)"
+_FRAME_FS = ("forall(lambda rel: implies(not ISABS(rel) and not UNDER(%s, common, rel),"
+             " dstate(PJOIN(dataset_root, rel)) == old(dstate(PJOIN(dataset_root, rel)))"
+             " and disk_read(PJOIN(dataset_root, rel)) == old(disk_read(PJOIN(dataset_root, rel)))), rel='U')" % _D)
+_FRAME_CERT = ("forall(lambda rel: implies(not UNDER(%s, common, rel) and not ANCREL(rel, %s),"
+               " cert(dataset_root, rel) == old(cert(dataset_root, rel))), rel='U')" % (_D, _P0))
+_DOCS = ("forall(lambda rel: DOC_AT(dataset_root, rel) is old(DOC_AT(dataset_root, rel)) or fresh(DOC_AT(dataset_root, rel)), rel='U')")
+_RSL_OK = [
+    f"forall(lambda rel: implies(LISTFILE(dataset_root, rel), DOC_AT(dataset_root, rel) is not {_RSL}), rel='U')",
+    f"{_RSL}.relative_path_self == {_P0}",
+    f"{_RSL}.number_of_examples == lsum({_RSL}.shard_files, 'number_of_examples')",
+    f"forall(lambda i: implies(0 <= i and i < len({_RSL}.shard_files), VALID_ShardInfo({_RSL}.shard_files[i])))",
+    f"forall(lambda i: implies(0 <= i and i < len({_RSL}.shard_files), dstate(PJOIN(dataset_root, {_RSL}.shard_files[i].file_infos[0].file_path)) == 2))",
+]
 contract(MM, "merge_shard_infos", props=[],
     params={"updates": "list:ref:ShardListInfo", "dataset_root": "U", "common": "int", "hashes": "list:U"},
     returns="ref:ShardListInfo",
-    requires=["len(updates) >= 1", "common >= 1"],
-    modifies=["ghost:fs"],
-    ensures=["fresh(result)"],
+    requires=["len(updates) >= 1", "common >= 1",
+              "forall(lambda j: implies(0 <= j and j < len(updates), VALID_ShardListInfo(updates[j]) and NPARTS(UP(updates[j])) >= common + 1))",
+              "forall(lambda i, j: implies(0 <= i and i < j and j < len(updates), UP(updates[i]) != UP(updates[j])))",
+              "hashes == galgs()",
+              "DISK_OK(dataset_root)", "GINV(dataset_root)"],
+    # instances of the (audited) path lemmas for the paths of the updates
+    defs=["forall(lambda j: use_path(UP(updates[j]), common))",
+          "forall(lambda j: use_path(UP(updates[j]), common + 1, common))"],
+    modifies=["ghost:fs", "ghost:cert"],
+    ensures=[
+        f"fresh(result) and UP(result) == {_P0}",
+        ("C04", "INFO_EXACT(dataset_root, galgs(), result)"),
+        ("C04", f"reveal CERTDEF: cert(dataset_root, {_P0})"),
+        ("C04", "reveal DISKKEEP: DISK_OK(dataset_root)"), ("C04", "reveal GINVKEEP: GINV(dataset_root)"),
+        _FRAME_FS, "reveal CERTDEF: " + _FRAME_CERT,
+        # list documents are the ones parsed before or new ghost objects
+        _DOCS,
+    ],
     raises={"ValueError": ["True"]},
+    locals_={"recursively_update": "dict:list:ref:ShardListInfo", "_dc1": "dict:ref:ShardListInfo"},
     loops={
         1: Loop(inv=["0 <= _k",
                      "forall(lambda j: implies(0 <= j and j < _k, PPREFIX(UP(updates[j]), common) == PPREFIX(UP(updates[0]), common)))"]),
+        2: Loop(inv=[
+            f"0 <= _k and _k <= len({_RSL}.children_shard_lists)",
+            f"{_RSL}.number_of_examples == lsum({_RSL}.shard_files, 'number_of_examples')"
+            f" + lsum({_RSL}.children_shard_lists, 'number_of_examples') - lsum({_RSL}.children_shard_lists, 'number_of_examples', _k)",
+            "len(deeper_updates) >= loop_entry(len(deeper_updates))",
+            "forall(lambda j: implies(0 <= j and j < loop_entry(len(deeper_updates)), deeper_updates[j] is loop_entry(deeper_updates)[j]))",
+            f"forall(lambda j: implies(0 <= j and j < len(deeper_updates), DU_OK(deeper_updates[j], {_D}, common)))",
+            "forall(lambda i, j: implies(0 <= i and i < j and j < len(deeper_updates), UP(deeper_updates[i]) != UP(deeper_updates[j])))",
+            f"forall(lambda j, i: implies(loop_entry(len(deeper_updates)) <= j and j < len(deeper_updates) and _k <= i and i < len({_RSL}.children_shard_lists),"
+            f"   UP(deeper_updates[j]) != UP({_RSL}.children_shard_lists[i])))",
+        ], frame={"ShardsList.children_shard_lists": [], "ShardsList.shard_files": [], "ShardsList.relative_path_self": [],
+                  "ShardsList.number_of_examples": ["root_shard_list"],
+                  "ShardInfo.number_of_examples": [], "ShardListInfo.number_of_examples": []},
+           lemmas=[f"use_path({_P0}, common + 1, common)",
+                   f"use_path(UP(updates[0]), common)",
+                   f"forall(lambda i: use_path(UP({_RSL}.children_shard_lists[i]), common + 1, common))"]),
+        3: Loop(inv=[
+            "0 <= _k and _k <= len(deeper_updates)",
+            # every group is non-empty, holds infos of this subtree whose next directory is the group's key
+            f"forall(lambda g: implies(g in {_G}, len({_G}[g]) >= 1 and PLAIN_NAME(g)), g='U')",
+            f"forall(lambda g, i: implies(g in {_G} and 0 <= i and i < len({_G}[g]),"
+            f"   DU_OK({_G}[g][i], {_D}, common) and PART(UP({_G}[g][i]), common) == g), g='U')",
+            f"forall(lambda g, i, j: implies(g in {_G} and 0 <= i and i < j and j < len({_G}[g]),"
+            f"   UP({_G}[g][i]) != UP({_G}[g][j])), g='U')",
+            f"forall(lambda g, i, j: implies(g in {_G} and 0 <= i and i < len({_G}[g]) and _k <= j and j < len(deeper_updates),"
+            f"   UP({_G}[g][i]) != UP(deeper_updates[j])), g='U')",
+        ], lemmas=["forall(lambda j: use_path(UP(deeper_updates[j]), common))"]),
+        4: Loop(inv=[
+            f"0 <= _k and _k <= dictlen({_G})",
+            f"forall(lambda g: (g in {_M}) == (g in {_G} and dictidx({_G}, g) < _k), g='U')",
+            f"forall(lambda g: implies(g in {_M}, UP({_M}[g]) == PJOIN(PJOIN({_D}, g), 'shards_list.json')), g='U')",
+            f"forall(lambda g: implies(g in {_M}, INFO_EXACT(dataset_root, galgs(), {_M}[g])), g='U')",
+            f"forall(lambda g: implies(g in {_M}, cert(dataset_root, UP({_M}[g]))), g='U')",
+            "DISK_OK(dataset_root)", "GINV(dataset_root)",
+            _FRAME_FS, _FRAME_CERT, _DOCS,
+            f"len({_RSL}.children_shard_lists) == 0",
+        ] + _RSL_OK,
+            end_lemmas=[
+                # the directory handled by this step, and where its result lives
+                f"PPREFIX(UP(_dc1_recursive_updates[0]), common + 1) == PJOIN({_D}, _dc1_directory)",
+                f"UP({_M}[_dc1_directory]) == PJOIN(PJOIN({_D}, _dc1_directory), 'shards_list.json')",
+                f"NPARTS({_D}) == common and NPARTS(PJOIN({_D}, _dc1_directory)) == common + 1"
+                f" and NPARTS(PJOIN(PJOIN({_D}, _dc1_directory), 'shards_list.json')) == common + 2 and NPARTS({_P0}) == common + 1",
+                # results of earlier steps live in other directories: their files and certificates are untouched
+                f"forall(lambda g: implies(g in {_M} and g != _dc1_directory, not UNDER(PJOIN({_D}, _dc1_directory), common + 1, UP({_M}[g]))"
+                f"   and not ANCREL(UP({_M}[g]), PJOIN(PJOIN({_D}, _dc1_directory), 'shards_list.json'))), g='U')",
+                f"forall(lambda g: implies(g in {_M} and g != _dc1_directory,"
+                f"   dstate(PJOIN(dataset_root, UP({_M}[g]))) == iter_start(dstate(PJOIN(dataset_root, UP({_M}[g]))))"
+                f"   and disk_read(PJOIN(dataset_root, UP({_M}[g]))) == iter_start(disk_read(PJOIN(dataset_root, UP({_M}[g]))))"
+                f"   and cert(dataset_root, UP({_M}[g])) == iter_start(cert(dataset_root, UP({_M}[g])))), g='U')",
+                # what lies outside D (and is not above it) lies outside D/g (and is not above it)
+                f"forall(lambda rel: implies(not UNDER({_D}, common, rel), not UNDER(PJOIN({_D}, _dc1_directory), common + 1, rel)), rel='U')",
+                f"forall(lambda rel: implies(not UNDER({_D}, common, rel) and not ANCREL(rel, {_P0})"
+                f"   and axinst(path_inst(PJOIN({_D}, _dc1_directory), common, NPARTS(rel) - 1, 'shards_list.json')"
+                f"        and path_inst({_D}, common, NPARTS(rel) - 1, _dc1_directory) and path_inst({_D}, common, NPARTS(rel) - 1, 'shards_list.json')"
+                f"        and path_inst(PJOIN(PJOIN({_D}, _dc1_directory), 'shards_list.json'), common, NPARTS(rel) - 1)"
+                f"        and path_inst({_P0}, common, NPARTS(rel) - 1)),"
+                f"   not ANCREL(rel, PJOIN(PJOIN({_D}, _dc1_directory), 'shards_list.json'))), rel='U')",
+            ],
+            lemmas=[f"forall(lambda g, i: use_path(UP({_G}[g][i]), common), g='U')",
+                    f"use_path(UP(updates[0]), common)",
+                    "forall(lambda rel: use_path(rel, common + 1, common), rel='U')",
+                    f"forall(lambda g: use_path(PJOIN(PJOIN({_D}, g), 'shards_list.json'), common + 2, common), g='U')",
+                    # a list below D/g is not below D/g' (g != g'), prefixes of D/g/x of length <= common are prefixes of D
+                    f"forall(lambda g: use_path(PJOIN({_D}, g), common + 1, common, 'shards_list.json'), g='U')",
+                    ]),
+        5: Loop(inv=[
+            f"0 <= _k and _k <= dictlen(merged) and len({_RSL}.children_shard_lists) == _k",
+            f"forall(lambda j: implies(0 <= j and j < _k, {_RSL}.children_shard_lists[j] is merged[dictkey(merged, j)]))",
+            f"{_RSL}.number_of_examples == lsum({_RSL}.shard_files, 'number_of_examples') + lsum({_RSL}.children_shard_lists, 'number_of_examples')",
+            "DISK_OK(dataset_root)", "GINV(dataset_root)",
+            f"forall(lambda g: implies(g in merged and axinst(path_inst(PJOIN({_D}, g), common, common - 1, 'shards_list.json')"
+            f"      and path_inst({_D}, common, common - 1, g) and path_inst({_D}, common, common - 1, 'shards_list.json')"
+            f"      and path_inst(UP(updates[0]), common)),"
+            f"   CHILD_PLACED({_P0}, merged[g])), g='U')",
+            f"forall(lambda j: implies(0 <= j and j < _k, CHILD_PLACED({_P0}, {_RSL}.children_shard_lists[j])))",
+            f"forall(lambda i, j: implies(0 <= i and i < j and j < _k, UP({_RSL}.children_shard_lists[i]) != UP({_RSL}.children_shard_lists[j])))",
+        ], frame={"ShardsList.shard_files": [], "ShardsList.relative_path_self": [],
+                  "ShardsList.number_of_examples": ["root_shard_list"], "ShardsList.children_shard_lists": ["root_shard_list"],
+                  "ShardInfo.number_of_examples": [], "ShardListInfo.number_of_examples": []},
+           lemmas=[f"forall(lambda g: implies(g in merged, use_path(UP(merged[g]), common + 1, common)), g='U')",
+                   f"use_path({_P0}, common + 1, common)", "use_path(UP(updates[0]), common)"]),
     })
